@@ -174,6 +174,43 @@ func (m *M) schedule() {
 	st.NoPreemptNext = true
 }
 
+// schedEvent: the synchronisation operations whose global order is recorded in the schedule trace of a path; the native
+// replay instruments exactly these (cmd/gosym/rewrite.go: instrumentSched) and enforces the recorded order.
+func schedEvent(name string) bool {
+	if strings.HasPrefix(name, "sync/atomic.") {
+		b := name[len("sync/atomic."):]
+		for _, op := range []string{"CompareAndSwap", "Add", "Load", "Store", "Swap"} {
+			if strings.HasPrefix(b, op) {
+				switch b[len(op):] {
+				case "Int32", "Int64", "Uint32", "Uint64", "Uintptr":
+					return true
+				}
+			}
+		}
+		return false
+	}
+	switch name {
+	case "(*sync.Mutex).Lock", "(*sync.Mutex).Unlock", "(*sync.RWMutex).Lock", "(*sync.RWMutex).Unlock", "(*sync.RWMutex).RLock", "(*sync.RWMutex).RUnlock",
+		"(*sync.Map).Load", "(*sync.Map).Store", "(*sync.Map).LoadOrStore", "(*sync.Map).LoadAndDelete", "(*sync.Map).Delete":
+		return true
+	}
+	return false
+}
+
+// noteSchedEvent records a completed synchronisation event of the running thread.
+func (m *M) noteSchedEvent(name string) {
+	st := m.st
+	if !st.inThreadMode() || !schedEvent(name) {
+		return
+	}
+	for _, fr := range st.Frames {
+		if fr.Atomic {
+			return
+		}
+	}
+	st.SchedTrace = append(st.SchedTrace, int8(st.Cur))
+}
+
 func isSyncCallee(name string) bool {
 	return strings.HasPrefix(name, "sync/atomic.") || strings.HasPrefix(name, "(*sync.") || strings.HasPrefix(name, "(*sync/atomic.")
 }
